@@ -385,6 +385,74 @@ class StmtOps:
                 st.heap[a] = st.decls.const('H_' + a, '(Array Int Val)')
                 st.bump(a)
 
+    def check_loop_frame(self, node, ordn, items, whole, head, head_env, entry_alloc):
+        """what an iteration changes on objects that existed before the loop must be covered by the loop's havoc set
+        (its `modifies` annotation and the attributes it stores syntactically): otherwise the cut would keep stale facts"""
+        st = self.st
+        what = 'loop #%d frame' % ordn
+        objs = {}
+        lists, dicts = [], []
+        saved = st.env
+        st.env = dict(head_env)
+        live = self.st
+        try:
+            for it in items:
+                if it.startswith(('ghost:', 'heap:', 'fresh:')) or it == 'alloc':
+                    continue
+                if it.startswith('list(') or it.startswith('dict('):
+                    tmp = head.snapshot()
+                    tmp.pc, tmp.obligations = live.pc, live.obligations
+                    tmp.decisions, tmp.dpos, tmp.dlog, tmp.trace = live.decisions, live.dpos, live.dlog, live.trace
+                    tmp.env = dict(head_env)
+                    self.st = tmp
+                    try:
+                        v = self.spec_eval(it[5:-1])
+                    finally:
+                        live.dpos = tmp.dpos
+                        self.st = live
+                    (lists if it.startswith('list(') else dicts).append(v.term)
+                    continue
+                n = ast.parse(it, mode='eval').body
+                tmp = head.snapshot()
+                tmp.pc, tmp.obligations = live.pc, live.obligations
+                tmp.decisions, tmp.dpos, tmp.dlog, tmp.trace = live.decisions, live.dpos, live.dlog, live.trace
+                tmp.env = dict(head_env)
+                self.st = tmp
+                try:
+                    o = self.spec_eval(ast.unparse(n.value))
+                finally:
+                    live.dpos = tmp.dpos
+                    self.st = live
+                objs.setdefault(n.attr, []).append(o.term)
+        finally:
+            st.env = saved
+        for attr, arr in st.heap.items():
+            old = head.heap.get(attr, st.decls.base_heap.get(attr))
+            if old is None or old == arr or attr in whole:
+                continue
+            excl = [mk_not(mk_eq('r', o)) for o in objs.get(attr, [])]
+            goal = "(forall ((r Int)) %s)" % mk_implies(mk_and(mk_lt('r', entry_alloc), *excl),
+                                                       mk_eq(mk_select(arr, 'r'), mk_select(old, 'r')))
+            st.oblige(goal, '%s: attribute %s of objects that existed before the loop changes only where the loop says so' % (what, attr),
+                      node.lineno, kind='invariant')
+        if st.seqh is not None and head.seqh is not None and st.seqh != head.seqh:
+            excl = [mk_not(mk_eq('r', l)) for l in lists]
+            goal = "(forall ((r Int)) %s)" % mk_implies(mk_and(mk_lt('r', entry_alloc), *excl),
+                                                       mk_eq(mk_select(st.seqh, 'r'), mk_select(head.seqh, 'r')))
+            st.oblige(goal, '%s: lists that existed before the loop change only where the loop says so' % what, node.lineno, kind='invariant')
+        if st.ddom is not None and head.ddom is not None and (st.ddom != head.ddom or st.dval != head.dval):
+            excl = [mk_not(mk_eq('r', d)) for d in dicts]
+            goal = "(forall ((r Int)) %s)" % mk_implies(
+                mk_and(mk_lt('r', entry_alloc), *excl),
+                mk_and(mk_eq(mk_select(st.ddom, 'r'), mk_select(head.ddom, 'r')),
+                       mk_eq(mk_select(st.dval, 'r'), mk_select(head.dval, 'r'))))
+            st.oblige(goal, '%s: dicts that existed before the loop change only where the loop says so' % what, node.lineno, kind='invariant')
+        listed = {it[6:].partition(':')[0] for it in items if it.startswith('ghost:')}
+        for g, v in st.ghost.items():
+            hv = head.ghost.get(g)
+            if hv is not None and getattr(hv, 'term', None) != getattr(v, 'term', None) and g not in listed:
+                raise Unsupported('loop #%d changes ghost %s, which its annotation does not list in modifies' % (ordn, g), node)
+
     def eval_invs(self, ann, i_term, what, node, assume):
         st = self.st
         self.spec_env['_i'] = self.mk_int(i_term)
@@ -412,11 +480,16 @@ class StmtOps:
         items = list(ann.get('modifies', []))
         covered = set()
         for it in items:
-            if not (it.startswith('dict(') or it.startswith('list(') or it.startswith('ghost:') or it.startswith('heap:') or it == 'alloc'):
+            if not (it.startswith('dict(') or it.startswith('list(') or it.startswith('ghost:') or it.startswith('heap:')
+                    or it.startswith('fresh:') or it == 'alloc'):
                 covered.add(it.rsplit('.', 1)[-1])
+        entry_alloc = st.alloc
+        whole = set(sorted(stored_attrs(body) - covered)) | {it[5:] for it in items if it.startswith('heap:')}
         self.havoc_modifies(items, st.env)
         self.havoc_heap(sorted(stored_attrs(body) - covered))
         self.havoc_heap(['alloc'])
+        head = st.snapshot()
+        head_env = dict(st.env)
         i = st.decls.const('i', 'Int')
         st.assume(mk_le('0', i), 'loop')
         if count is not None:
@@ -446,6 +519,7 @@ class StmtOps:
                 return
             self.spec_env.pop('_i', None)
             self.eval_invs(ann, mk_add(i, '1'), 'loop #%d invariant preserved' % ordn, node, assume=False)
+            self.check_loop_frame(node, ordn, items, whole, head, head_env, entry_alloc)
             raise PathEnd('loop-back')
         # exit
         for name, ty in ann.get('defines', {}).items():
@@ -459,6 +533,10 @@ class StmtOps:
             c, rt, rf = self.cond(guard)
             st.assume(mk_not(c), 'loop')
             self.apply_refine(rf)
+
+
+def _noop():
+    pass
 
 
 def loop_ordinal(fn, node):
